@@ -424,7 +424,7 @@ class Gen:
         sp = self.pick(["host"] * 8 + ["HOST", "Host"])
         if r < 0.7:
             return {"t": "host", "decls": self.declarations(), "combo": None, "host_spelling": sp}
-        combo = self.pick(["func", "class", "descendant", "list", "attr", "attr-desc", "pseudo", "id", "pre-list", "pre-class", "pre-star", "pre-desc", "in-is", "pre-list-2"])
+        combo = self.pick(["func", "class", "descendant", "list", "attr", "attr-desc", "pseudo", "id", "pre-list", "pre-class", "pre-star", "pre-desc", "in-is", "pre-list-2", "in-is-first", "in-not-desc", "in-has"])
         return {"t": "host", "decls": self.declarations(), "combo": combo, "host_spelling": sp}
 
     def at_rule(self, depth, sel_depth):
